@@ -202,7 +202,7 @@ func init() {
 		o := o
 		p.Strata = append(p.Strata, mon.Stratum{
 			Name: "bulky-elements/" + o.Name,
-			N:    qt(400, 20000),
+			N:    qt(400, 8000),
 			Run: func(c *mon.Ctx, i int) {
 				// strings of 1-140 KB that differ in one middle byte, as array elements, as member
 				// values and as keys of objects inside arrays; multiplicities around 256
